@@ -291,35 +291,47 @@ example : WordRun "ab_1".toList " x".toList ∧ classifyWord "ab_1".toList = "Sn
   ⟨⟨by decide, by decide, by intro c hc; cases hc; decide⟩, by decide, by decide, by decide, by decide,
     by decide, by decide, by decide, by decide, by decide, by decide⟩
 
-/-- **Numbers.**  A run starting with a digit is Number iff it is a numeric constant in a
-form the reference documents (`IsNumberDoc`: decimal / `0x` / `0b`, without separators or
-with 3-digit resp. consistent 4- or 8-digit groups) or in the one extra form the
-tokenizer accepts (`IsNumberRadixUnderscore`: a `_` directly after `0x`/`0b`); otherwise
-it is BadNumber if it has the catch-all number shape, else BadWord.
-
-Full statement wanted by the property (`Number ↔ IsNumberDoc w`) is *false* for the code:
-see `C10_number_classes_counterexample`; hence `_partial`, the excluded inputs being
-exactly `IsNumberRadixUnderscore`. -/
-theorem C10_number_classes_partial (w rest : List Char) (h : WordRun w rest) (x : Char) (t : List Char)
+/-- **Numbers.**  A run starting with a digit is `Number` **iff** it is a numeric constant as
+doc/language-reference.md ("Numeric Constant Formats") describes them (`IsNumberDoc`: decimal /
+`0x` / `0b`, without separators or with 3-digit resp. consistent 4- or 8-digit groups,
+optionally — for `0x`/`0b` — with a single `_` directly after the prefix before the first
+group); otherwise it is `BadNumber` iff it has the catch-all number shape, else `BadWord`.
+All strings, full statement (round 1 had `_partial`: the reference did not describe the
+`0x_…` form until /repo commit 1c861f8). -/
+theorem C10_number_classes (w rest : List Char) (h : WordRun w rest) (x : Char) (t : List Char)
     (hw : w = x :: t) (hx : isDigit x = true) :
     ∃ sym, bestMatch tokTable.pats (w ++ rest) 0 none = some (w.length, some sym) ∧
-      ((IsNumberDoc w ∨ IsNumberRadixUnderscore w) → sym = "Number") ∧
-      (¬ (IsNumberDoc w ∨ IsNumberRadixUnderscore w) → isBadNumberShape w = true → sym = "BadNumber") ∧
-      (¬ (IsNumberDoc w ∨ IsNumberRadixUnderscore w) → isBadNumberShape w = false → sym = "BadWord") :=
-  bestMatch_digit h x t hw hx
+      (sym = "Number" ↔ IsNumberDoc w) ∧
+      (sym = "BadNumber" ↔ ¬ IsNumberDoc w ∧ isBadNumberShape w = true) ∧
+      (sym = "BadWord" ↔ ¬ IsNumberDoc w ∧ isBadNumberShape w = false) := by
+  obtain ⟨sym, hb, h1, h2, h3⟩ := bestMatch_digit h x t hw hx
+  refine ⟨sym, hb, ?_⟩
+  by_cases hn : IsNumberDoc w
+  · have := h1 hn; subst this
+    exact ⟨⟨fun _ => hn, fun _ => rfl⟩, ⟨(fun hc => absurd hc (by decide)), fun hc => absurd hn hc.1⟩,
+      ⟨(fun hc => absurd hc (by decide)), fun hc => absurd hn hc.1⟩⟩
+  · cases hs : isBadNumberShape w with
+    | true =>
+      have := h2 hn hs; subst this
+      exact ⟨⟨(fun hc => absurd hc (by decide)), fun hc => absurd hc hn⟩, ⟨fun _ => ⟨hn, rfl⟩, fun _ => rfl⟩,
+        ⟨(fun hc => absurd hc (by decide)), (fun hc => by cases hc.2)⟩⟩
+    | false =>
+      have := h3 hn hs; subst this
+      exact ⟨⟨(fun hc => absurd hc (by decide)), fun hc => absurd hc hn⟩, ⟨(fun hc => absurd hc (by decide)), (fun hc => by cases hc.2)⟩,
+        ⟨fun _ => ⟨hn, rfl⟩, fun _ => rfl⟩⟩
 
 /-- The classification theorems apply to every token of a real tokenization: a token of a
 cover (of the regenerated table) that starts where a maximal word run `w` starts is exactly
-`w`, with the symbol `C10_word_classes` / `C10_number_classes_partial` give for `w`. -/
+`w`, with the symbol `C10_word_classes` / `C10_number_classes` give for `w`. -/
 theorem C10_word_tokens (ln : Nat) (line : List Char) (segs : List Seg)
     (h : Covers tokTable.pats ln line 0 segs) (t : Token) (ht : t ∈ tokensOf segs)
     (w rest : List Char) (hs : line.drop (t.sc - 1) = w ++ rest) (hr : WordRun w rest) :
     t.text = w ∧
     ((∀ x u, w = x :: u → isDigit x = false) → t.sym = classifyWord w) ∧
     (∀ x u, w = x :: u → isDigit x = true →
-      ((IsNumberDoc w ∨ IsNumberRadixUnderscore w) → t.sym = "Number") ∧
-      (¬ (IsNumberDoc w ∨ IsNumberRadixUnderscore w) → isBadNumberShape w = true → t.sym = "BadNumber") ∧
-      (¬ (IsNumberDoc w ∨ IsNumberRadixUnderscore w) → isBadNumberShape w = false → t.sym = "BadWord")) := by
+      (t.sym = "Number" ↔ IsNumberDoc w) ∧
+      (t.sym = "BadNumber" ↔ ¬ IsNumberDoc w ∧ isBadNumberShape w = true) ∧
+      (t.sym = "BadWord" ↔ ¬ IsNumberDoc w ∧ isBadNumberShape w = false)) := by
   obtain ⟨htext, hb⟩ := cover_word_token h ht hs hr
   refine ⟨htext, ?_, ?_⟩
   · intro hd
@@ -327,7 +339,7 @@ theorem C10_word_tokens (ln : Nat) (line : List Char) (segs : List Seg)
     rw [hb] at this
     simpa using this
   · intro x u hw hx
-    obtain ⟨sym, hb', h1, h2, h3⟩ := bestMatch_digit hr x u hw hx
+    obtain ⟨sym, hb', h1, h2, h3⟩ := C10_number_classes w rest hr x u hw hx
     rw [hb] at hb'
     have : t.sym = sym := by simpa using hb'
     rw [this]
@@ -366,49 +378,29 @@ theorem C10_word_tokens_are_maximal_runs (ln : Nat) (line : List Char) (segs : L
     obtain ⟨a, ha, hwa⟩ := i2 (by omega)
     exact ⟨a, by simpa using ha, hwa⟩
 
-theorem not_grouped_us (dig : Char → Bool) (hd : dig '_' = false) (a b : Nat) (t : List Char) :
-    ¬ Grouped dig a b ('_' :: t) := by
-  rintro ⟨g0, gs, hb, h1, _, h3, _⟩
-  cases g0 with
-  | nil => simp at h1
-  | cons y g0' =>
-    simp only [List.cons_append, List.cons.injEq] at hb
-    simp only [List.all_cons, Bool.and_eq_true] at h3
-    rw [← hb.1, hd] at h3
-    exact absurd h3.1 (by simp)
-
-/-- `0x_1` is tokenized as a Number although it is not a numeric constant of
-doc/language-reference.md (a `_` that is not a 4- or 8-digit separator). -/
-theorem C10_number_classes_counterexample :
-    bestMatch tokTable.pats "0x_1".toList 0 none = some (4, some "Number") ∧
-      ¬ IsNumberDoc "0x_1".toList := by
-  refine ⟨by decide +kernel, ?_⟩
-  have hrun : WordRun "0x_1".toList [] := ⟨by decide, by decide, by intro c hc; cases hc⟩
-  rintro ((hp | hg) | ⟨body, hw, hb⟩ | ⟨body, hw, _⟩)
-  · revert hp; decide
-  · have := (full_decGrouped hrun).mpr hg
-    revert this; decide +kernel
-  · have : body = ['_', '1'] := by
-      have : "0x_1".toList = ['0', 'x', '_', '1'] := by decide
-      rw [this] at hw; simp only [List.cons.injEq, true_and] at hw; exact hw.symm
-    subst this
-    rcases hb with hp | hg | hg
-    · revert hp; decide
-    · exact not_grouped_us _ (by decide) _ _ _ hg
-    · exact not_grouped_us _ (by decide) _ _ _ hg
-  · have : "0x_1".toList = ['0', 'x', '_', '1'] := by decide
-    rw [this] at hw; simp only [List.cons.injEq, true_and] at hw
-    exact absurd hw.1 (by decide)
-
-/-- Non-vacuity of `C10_number_classes_partial`: documented forms and rejected ones. -/
+/-- Non-vacuity of `C10_number_classes`: documented forms (every kind the reference lists,
+among them its own examples `0x_ff`, `0b_1010_0101`) and rejected ones. -/
 example : IsNumberDoc "1_000".toList ∧ IsNumberDoc "0x1234_5678".toList ∧ IsNumberDoc "012".toList ∧
-    IsNumberRadixUnderscore "0b_0000_0000".toList ∧ isBadNumberShape "1000_000".toList = true := by
-  refine ⟨.inl (.inr ⟨['1'], [['0', '0', '0']], by decide, by decide, by decide, by decide, by decide⟩),
-    .inr (.inl ⟨"1234_5678".toList, by decide, .inr (.inl
-      ⟨['1', '2', '3', '4'], [['5', '6', '7', '8']], by decide, by decide, by decide, by decide, by decide⟩)⟩),
-    .inl (.inl (by decide)),
-    .inr ⟨"0000_0000".toList, by decide, .inl
-      ⟨['0', '0', '0', '0'], [['0', '0', '0', '0']], by decide, by decide, by decide, by decide, by decide⟩⟩,
+    IsNumberDoc "0b_1010_0101".toList ∧ IsNumberDoc "0x_ff".toList ∧
+    isBadNumberShape "1000_000".toList = true := by
+  refine ⟨.inl (.inl (.inr ⟨['1'], [['0', '0', '0']], by decide, by decide, by decide, by decide, by decide⟩)),
+    .inl (.inr (.inl ⟨"1234_5678".toList, by decide, .inr (.inl
+      ⟨['1', '2', '3', '4'], [['5', '6', '7', '8']], by decide, by decide, by decide, by decide, by decide⟩)⟩)),
+    .inl (.inl (.inl (by decide))),
+    .inr (.inr ⟨"1010_0101".toList, by decide, .inl
+      ⟨['1', '0', '1', '0'], [['0', '1', '0', '1']], by decide, by decide, by decide, by decide, by decide⟩⟩),
+    .inr (.inl ⟨"ff".toList, by decide, .inl
+      ⟨['f', 'f'], [], by decide, by decide, by decide, by decide, by simp⟩⟩),
     by decide⟩
+
+/-- Tests (by evaluation on the regenerated table) at the boundary of the new form: the
+reference's examples are Numbers; two `_`, a 9-digit run after `0x_`, and mixed 4/8 groups
+after `0x_` are BadNumber (and, by `C10_number_classes`, not `IsNumberDoc`). -/
+example : bestMatch tokTable.pats "0x_ff".toList 0 none = some (5, some "Number") ∧
+    bestMatch tokTable.pats "0x_1234_5678".toList 0 none = some (12, some "Number") ∧
+    bestMatch tokTable.pats "0x__1".toList 0 none = some (5, some "BadNumber") ∧
+    bestMatch tokTable.pats "0x_123456789".toList 0 none = some (12, some "BadNumber") ∧
+    bestMatch tokTable.pats "0x_1234_5678_9abcdef0".toList 0 none = some (21, some "BadNumber") := by
+  refine ⟨?_, ?_, ?_, ?_, ?_⟩ <;> decide +kernel
 
 end Emboss.Tok
